@@ -1,17 +1,108 @@
-//! C10 — stub (monitor not written yet)
-use serde_json::Value;
+//! C10 — re-building an existing PURL is the identity.
+//!
+//! Refuted by: `p.clone().into_builder().build()` is `Err`, panics, `!= p`, or prints a
+//! different string. The relation itself is the oracle.
 
+use std::fmt::Debug;
+use std::hash::Hash;
+
+use purl::{GenericPurl, PurlShape};
+use serde_json::{json, Value};
+
+use super::values::{self, Visitor};
 use super::Fail;
-use crate::obs::{Ctx, Tier};
+use crate::obs::{self, guard, Ctx, Out, Snap, Stats, Tier};
+use crate::rng::fnv;
 
-pub const RULE: &str = "";
+pub const RULE: &str = "a case is one PURL value (parsed or built, one type parameter) that is converted into a builder and built again; non-trivial = the value has a normalisation-sensitive feature (pypi/nuget name, checksum, qualifiers, upper-case in the source type, non-ASCII text); distinct by hash of (type parameter, canonical string)";
 
-pub fn requirements(_tier: Tier) -> Vec<(&'static str, u64)> {
-    vec![("not-implemented", 1)]
+pub fn requirements(tier: Tier) -> Vec<(&'static str, u64)> {
+    let q = tier == Tier::Quick;
+    vec![
+        ("values:parsed:String", if q { 50_000 } else { 500_000 }),
+        ("values:parsed:SmallString", 50_000),
+        ("values:parsed:Purl", 20_000),
+        ("values:built:String", 20_000),
+        ("values:built:SmallString", 20_000),
+        ("values:built:Cow::Owned", 20_000),
+        ("values:built:Cow::Borrowed", 20_000),
+        ("values:built:PackageType", 20_000),
+        ("rebuilt:pypi-or-nuget-name-with-rule-sensitive-char", 1_000),
+        ("rebuilt:with-checksum", 1_000),
+        ("rebuilt:with-non-ascii", 1_000),
+        ("set:package-types-rebuilt", 7),
+    ]
 }
 
-pub fn run(_ctx: &mut Ctx) {}
+pub struct C10;
 
-pub fn replay(_monitor: &str, _case: &Value) -> Result<Option<Fail>, String> {
-    Err("not implemented".into())
+impl Visitor for C10 {
+    const MONITOR: &'static str = "C10.rebuild";
+
+    fn visit<T>(&mut self, st: &mut Stats, p: &GenericPurl<T>, tp: &'static str, observe: bool) -> Option<Fail>
+    where
+        T: PurlShape + Clone + Eq + Hash + Ord + Debug,
+        T::Error: Debug,
+    {
+        let snap = Snap::of(p);
+        let c = match obs::show(p) {
+            Out::Ok(c) => c,
+            o => return Some(Fail::new("format-panicked", o.kind())),
+        };
+        if observe {
+            let mut nontrivial = false;
+            if tp == "PackageType" {
+                st.set_insert("package-types-rebuilt", snap.ty.clone());
+                if (snap.ty == "pypi" || snap.ty == "nuget") && snap.name.chars().any(|c| !c.is_ascii_lowercase() && !c.is_ascii_digit()) {
+                    st.count("rebuilt:pypi-or-nuget-name-with-rule-sensitive-char");
+                    nontrivial = true;
+                }
+            }
+            if snap.quals.iter().any(|(k, _)| k == "checksum") {
+                st.count("rebuilt:with-checksum");
+                nontrivial = true;
+            }
+            if c.contains("%C") || c.contains("%E") || c.contains("%F") || c.contains("%D") {
+                st.count("rebuilt:with-non-ascii");
+                nontrivial = true;
+            }
+            if !snap.quals.is_empty() {
+                nontrivial = true;
+            }
+            if nontrivial {
+                st.nontrivial(fnv(format!("{tp}\u{0}{c}").as_bytes()));
+            }
+            st.sample(|| json!({"type_parameter": tp, "value": c, "rebuild": "Ok, equal, same string"}));
+        }
+        let q = match obs::guard_res("into_builder().build()", || p.clone().into_builder().build()) {
+            Out::Ok(q) => q,
+            o => {
+                return Some(Fail::tagged("rebuild-failed", o.kind(), format!("{c:?} ({tp}): into_builder().build() gave {}", o.kind())));
+            },
+        };
+        match guard("PartialEq", || q == *p) {
+            Out::Ok(true) => {},
+            o => {
+                let qs = Snap::of(&q);
+                return Some(Fail::tagged(
+                    "rebuild-not-equal",
+                    snap.diff(&qs).unwrap_or("stored-parts"),
+                    format!("{c:?} ({tp}): re-built value differs ({}): {snap:?} became {qs:?}", o.kind()),
+                ));
+            },
+        }
+        match obs::show(&q) {
+            Out::Ok(c2) if c2 == c => None,
+            o => Some(Fail::tagged("rebuild-prints-differently", "", format!("{c:?} ({tp}): re-built value prints as {}", match o { Out::Ok(x) => x, o => o.kind() }))),
+        }
+    }
+}
+
+pub fn run(ctx: &mut Ctx) {
+    let mut v = C10;
+    values::standard_workload(&mut v, ctx, "c10", 5, 3);
+}
+
+pub fn replay(_monitor: &str, case: &Value) -> Result<Option<Fail>, String> {
+    values::replay(&mut C10, case)
 }
